@@ -10,10 +10,61 @@
     statement is exact: the tokens consumed are a prefix x..y of the deliverable stream, the span is
     [start of x, end of y) and the text its bytes; nothing consumed gives the empty span / string
     ([C14_spanned_exact], [C14_text_exact], from the cursor-tracking theorem [C14_cursor_tracking]).
-    Not covered by a theorem (correspondence + oracle): wrapped parsers outside [core0] (sub moves
-    the cursor over filtered tokens at a parse start; repetitions; recovering combinators), and the
-    case of an exhausted stream. *)
-From Tephra Require Import MetricsSpec CLexer LexerFacts Run Peg RunCore RunCapture RunMove.
+    THE WHOLE C06/C07 FAMILY WITHOUT SUB ([core1], RunMove2): seq_count, end_of_text and every
+    repetition / interspersal combinator (nested, nullable or not, with stop parsers, counting
+    variants) are tracked too, so the exact statement holds for every wrapped parser the property
+    quantifies over ([C14_spanned_exact_family], [C14_text_exact_family]).
+    Not covered by a theorem (correspondence + oracle): wrapped parsers containing sub (it moves the
+    cursor over filtered tokens at a parse start) or recovering combinators, and the case of an
+    exhausted stream. *)
+From Tephra Require Import MetricsSpec CLexer LexerFacts Run Peg RunCore RunCapture RunMove RunMove2.
+
+
+(** the whole family of the property (sub-free): primitives incl. seq_count and end_of_text, sequences,
+    choice, options, implications, and every repetition / interspersal combinator *)
+Theorem C14_cursor_tracking_family :
+  forall m, 1 <= tabw m -> forall t, wf_text t ->
+  forall fuel g, core1 g = true -> forall lx ys c st, Inv m t lx ys ->
+  match run fuel g lx c st with
+  | (ROk _ lx', _) =>
+    exists ys' consumed, Inv m t lx' ys' /\ c_filter lx' = c_filter lx
+      /\ kept (c_filter lx) ys = consumed ++ kept (c_filter lx) ys' /\ moved lx lx' consumed
+  | _ => True
+  end.
+Proof. exact core1_tracked. Qed.
+Print Assumptions C14_cursor_tracking_family.
+
+Theorem C14_spanned_exact_family :
+  forall m, 1 <= tabw m -> forall t, wf_text t ->
+  forall f a lx ys c st x s sp v lx' st', Inv m t lx ys -> kept (c_filter lx) ys = x :: s ->
+  core1 a = true ->
+  run (S f) (GSpanned a) lx c st = (ROk (VSpanned sp v) lx', st') ->
+  exists ys' consumed, Inv m t lx' ys' /\ x :: s = consumed ++ kept (c_filter lx) ys'
+    /\ match consumed with
+       | [] => byte (sstart sp) = byte (send sp)
+       | y :: _ => sp = mkspan (e_start y) (e_end (last consumed y)) /\ y = x
+       end.
+Proof. exact spanned_exact1. Qed.
+Print Assumptions C14_spanned_exact_family.
+
+Theorem C14_text_exact_family :
+  forall m, 1 <= tabw m -> forall t, wf_text t ->
+  forall f a lx ys c st x s b e lx' st', Inv m t lx ys -> kept (c_filter lx) ys = x :: s ->
+  core1 a = true ->
+  run (S f) (GText a) lx c st = (ROk (VText b e) lx', st') ->
+  exists ys' consumed, Inv m t lx' ys' /\ x :: s = consumed ++ kept (c_filter lx) ys'
+    /\ match consumed with
+       | [] => b = e
+       | y :: _ => b = byte (e_start y) /\ e = byte (e_end (last consumed y)) /\ y = x
+       end.
+Proof. exact text_exact1. Qed.
+Print Assumptions C14_text_exact_family.
+
+Example C14_family_example :
+  core1 (GBoth (GRepeatCountUntil 0 None (GOne KSemi) (GIntersperse 1 (Some 3) (GBoth (GOne KA) (GMaybe (GOne KB))) (GOne KComma)))
+               (GBoth (GSeqCount [KC; KC]) GEot)) = true.
+Proof. reflexivity. Qed.
+Print Assumptions C14_family_example.
 
 (** where a successful parse of the sub-free core leaves the lexer: the consumed tokens are a
     prefix of the deliverable stream; the cursor is at the end of the last one; the parse span
